@@ -2,6 +2,7 @@ mod arith;
 mod instr;
 mod mapdrv;
 mod setdrv;
+mod tabledrv;
 
 use instr::*;
 
@@ -43,6 +44,13 @@ fn main() {
                     "map-plain" => mapdrv::run_map::<Kp, Vp>(&body, &mut out),
                     "set-drop" => setdrv::run_set::<Kd>(&body, &mut out),
                     "set-plain" => setdrv::run_set::<Kp>(&body, &mut out),
+                    "table-drop" => tabledrv::run_table::<tabledrv::Td>(&body, &mut out),
+                    "table-plain" => tabledrv::run_table::<tabledrv::Tp>(&body, &mut out),
+                    "table-200" => tabledrv::run_table::<tabledrv::T200>(&body, &mut out),
+                    "table-a64" => tabledrv::run_table::<tabledrv::Ta64>(&body, &mut out),
+                    "table-1" => tabledrv::run_table::<tabledrv::T1>(&body, &mut out),
+                    "table-2" => tabledrv::run_table::<tabledrv::T2>(&body, &mut out),
+                    "table-zst" => tabledrv::run_table::<tabledrv::Tz>(&body, &mut out),
                     k => panic!("unknown kind {}", k),
                 }
             }
